@@ -134,6 +134,19 @@ pub fn run_calls(
     if finish_ok || dropped_clean {
         judge(&bytes, pw, st, &case, order, part, if representable { col } else { None });
     }
+    // raw copies whose SOURCE archive hands out its data in pieces (a Read may return fewer bytes than asked for): whatever
+    // comes out under a reported success is judged like the rest
+    if base.is_none() && (finish_ok || dropped_clean) && calls.iter().any(|c| matches!(c, Call::RawCopy { .. })) {
+        for chunk in [1usize, 100] {
+            let (r2, b2) = exec_chunked(calls, sources, 0, chunk);
+            st.evals += 1;
+            if r2.iter().any(|r| r.is_panic()) {
+                st.viol(format!("panic/raw-copy-from-pieces/{part}"), format!("a call panicked with the raw-copy source read in pieces of {chunk} [{part}]"), case.clone(), order);
+            } else if r2.iter().all(|r| r.is_ok()) && b2 != bytes {
+                judge(&b2, pw, st, &case, order, &format!("{part}/source-in-pieces-of-{chunk}"), None);
+            }
+        }
+    }
 }
 
 // ---------------------------------------------------------------------------------------------
@@ -217,7 +230,7 @@ fn program_case(p: &c01::Program, st: &mut Stats, order: u64, part: &str, col: O
     for finish in [true, false] {
         st.evals += 1;
         let calls = p.calls(finish);
-        let (res, bytes) = exec(&calls, &[]);
+        let (res, bytes) = exec(&calls, &p.sources());
         let case = json!({"kind": "program", "program": p.to_json(), "finish": finish});
         if let Some((c, r)) = calls.iter().zip(&res).find(|(_, r)| r.is_panic()) {
             st.viol(format!("panic/{}/{}", c.opname(), panic_site(&r.show())), format!("{} panicked: {} [{part}]", c.opname(), r.show()), case, order);
